@@ -88,6 +88,7 @@ impl Rng {
     }
 }
 
+pub const MODES_PUB: [BlendMode; 29] = MODES;
 const MODES: [BlendMode; 29] = [
     BlendMode::Clear, BlendMode::Source, BlendMode::Destination, BlendMode::SourceOver, BlendMode::DestinationOver,
     BlendMode::SourceIn, BlendMode::DestinationIn, BlendMode::SourceOut, BlendMode::DestinationOut, BlendMode::SourceAtop,
